@@ -12,7 +12,7 @@ import registry  # noqa: E402
 BASELINE = ("cd /repo && cargo nextest run --workspace --no-fail-fast --tool-config-file pb:/w/lib/nextest.toml --profile pb "
             "--test-threads 8 --offline || cargo test --workspace --no-fail-fast --offline")
 
-COLL = """ SetUnion::merge and is_bot are additionally verified by Verus generically in the backing collection against the trusted collection contract (Len::len is the cardinality of the element set, Extend::extend is union; false for Vec used as a set, which is outside the claim). Collection lattices (iterator-adapter bodies, outside Verus): SetUnion and MapUnion merge / partial_cmp / eq / is_bot / lattice_from are checked by Kani against set-union / key-wise-merge-with-invisible-bottoms oracles written on arrays, for operands of <= 2 elements in every cheap representation (ArraySet/OptionSet/SingletonSet/ArrayMap/OptionMap/SingletonMap, harness TinySet/TinyMap as Extend receivers), including cross-representation comparisons; VecUnion (length <= 2) against the index-wise-merge-with-extension model; UnionFind (items {0,1,2}, reachable states) against an equivalence-closure matrix (thorough tier). These are bounded by operand size, not proved."""
+COLL = """ SetUnion::merge and is_bot are additionally verified by Verus generically in the backing collection against the trusted collection contract (Len::len is the cardinality of the element set, Extend::extend is union; false for Vec used as a set, which is outside the claim). Collection lattices (iterator-adapter bodies, outside Verus): SetUnion and MapUnion merge / partial_cmp / eq / is_bot / lattice_from are checked by Kani against set-union / key-wise-merge-with-invisible-bottoms oracles written on arrays, for operands of <= 2 elements in every cheap representation (ArraySet/OptionSet/SingletonSet/VecSet/ArrayMap/OptionMap/SingletonMap/VecMap as merged-in and compared values, harness TinySet/TinyMap as Extend receivers), including cross-representation comparisons; VecUnion (length <= 2) against the index-wise-merge-with-extension model; UnionFind (items {0,1,2}, reachable states) against an equivalence-closure matrix (thorough tier). These are bounded by operand size, not proved."""
 
 CLAIMS = {
     "C01": {
